@@ -943,3 +943,104 @@ class _:
         ('man *= n', 0, 'before'): ['g_m = man'],
         ('man *= n', 0, 'after'): ['lemma_mul_pos(g_m, n)'],
     }
+
+
+# ------------------------------------------------------------------ square root
+# mpf_sqrt scales the (even-exponent) mantissa to M = man * 2**shift with >= 2*prec+4 bits, takes y = isqrt(M)
+# and rounds y (floor / down modes) or, when M is not a perfect square, the sticky value 2*y+1 one place lower.
+# The contract states correct rounding on squares (spec.sq_ok); the proof is the sticky argument of mpf_div
+# transported through monotonicity of squaring.
+SQRT_POST = [
+    'g_n = bitlen(g_y) - prec',
+    'g_P = pow2(g_n)',
+    'g_R = result[1] * pow2(result[2] - g_E - g_n)',
+    'g_tr = (rnd == "f" or rnd == "d")',
+    'g_aw = (rnd == "c" or rnd == "u")',
+    'lemma_pow2_succ(g_n)',
+    'lemma_sq_expand(g_y)',
+    # --- sticky branch (not a perfect square; modes c, u, n): the code rounded 2y+1 with unit 2P at exponent E-1
+    'g_P2 = pow2(bitlen(2 * g_y + 1) - prec)',
+    'g_R2 = result[1] * pow2(result[2] - (g_E - 1) - (bitlen(2 * g_y + 1) - prec))',
+    'assert implies(g_st, g_P2 == 2 * g_P)',
+    'assert implies(g_st, g_R2 == g_R)',
+    'lemma_mul_eq2(g_R2, g_R, g_P2, 2 * g_P)',
+    'assert implies(g_st, g_R2 * g_P2 == 2 * g_R * g_P)',
+    'assert implies(g_st and g_aw, 2 * g_R * g_P - 2 * g_P < 2 * g_y + 1 and 2 * g_y + 1 <= 2 * g_R * g_P)',
+    'assert implies(g_st and g_aw, g_R * g_P - g_P <= g_y and g_y + 1 <= g_R * g_P)',
+    'assert implies(g_st and not g_tr and not g_aw, -2 * g_P <= 4 * g_y + 2 - 4 * g_R * g_P and 4 * g_y + 2 - 4 * g_R * g_P <= 2 * g_P)',
+    'assert implies(g_st and not g_tr and not g_aw, -g_P <= 2 * g_y - 2 * g_R * g_P and 2 * g_y - 2 * g_R * g_P <= g_P - 2)',
+    # --- exact branch (perfect square, or floor / down modes): the code rounded y itself with unit P at exponent E
+    'assert implies(not g_st and g_tr, g_R * g_P <= g_y and g_y + 1 <= g_R * g_P + g_P)',
+    'assert implies(not g_st and g_aw, g_R * g_P - g_P < g_y and g_y <= g_R * g_P)',
+    'assert implies(not g_st and not g_tr and not g_aw, -g_P <= 2 * g_y - 2 * g_R * g_P and 2 * g_y - 2 * g_R * g_P <= g_P)',
+    'assert g_R * g_P >= g_P',
+    # --- squares
+    'lemma_sq_mono(g_R * g_P, g_y)',
+    'lemma_sq_mono(g_y + 1, g_R * g_P + g_P)',
+    'lemma_sq_mono(g_R * g_P - g_P, g_y)',
+    'lemma_sq_mono_lt(g_R * g_P - g_P, g_y)',
+    'lemma_sq_mono(g_y + 1, g_R * g_P)',
+    'lemma_sq_mono(g_y, g_R * g_P)',
+    'lemma_sq_mono(2 * g_R * g_P - g_P, 2 * g_y)',
+    'lemma_sq_mono(2 * g_y + 2, 2 * g_R * g_P + g_P)',
+    'lemma_sq_mono(2 * g_y, 2 * g_R * g_P + g_P)',
+    'lemma_sq_cancel(2 * g_R * g_P - g_P, 2 * g_y)',
+    'lemma_sq_cancel(2 * g_R * g_P + g_P, 2 * g_y)',
+]
+
+
+@contract(M + 'mpf_sqrt')
+class _:
+    shapes = dict(s='mpf', prec='int')
+    result = 'mpf'
+    props = dict(wf=['C01', 'C02'], bits=['C10', 'C02'], value=['C02', 'C13'])
+    all_props = ['C02', 'C01', 'C10', 'C13']
+    raises = dict(ComplexResult=lambda s: s[0] == 1)
+    search = 'sqrt_inputs'
+    # Floor / down modes are discharged deductively.  For ceiling / up / nearest the code rounds the sticky value
+    # 2*isqrt(M)+1; the chain of facts in SQRT_POST proves conjunct by conjunct in isolation but not within the solver
+    # budget of a check run, so these three modes are a declared gap (bounded stand-in, never counted as proved).
+    gaps = [dict(name='sticky square root (modes c, u, n)', clauses=['value'],
+                 cond=lambda s, rnd: rnd != 'f' and rnd != 'd' and s[1] != 0,
+                 gen='sqrt_inputs')]
+
+    def requires(s, prec, rnd):
+        return WF(s) and prec >= 1
+
+    def ensures_wf(s, prec, rnd, result):
+        return WF(result)
+
+    def ensures_bits(s, prec, rnd, result):
+        return special(result) or result[3] <= prec
+
+    def ensures_value(s, prec, rnd, result):
+        return SqrtSpec(result, s, prec, rnd)
+
+    ghost = {
+        ('shift = max(4, 2 * prec - bc + 4)', 0, 'before'): ['case 2 * prec - bc + 4 < 4'],
+        ('shift += shift & 1', 0, 'before'): ['case shift % 2 == 0'],
+        ('shift += shift & 1', 0, 'after'): [
+            'g_M = man * pow2(shift)', 'g_E = fdiv(exp - shift, 2)', 'g_st = False',
+            'assert shift % 2 == 0 and exp % 2 == 0',
+            'assert 2 * g_E == exp - shift',
+            # M has bc + shift >= 2*prec+4 bits, so y = isqrt(M) >= 2**(prec+1)
+            'lemma_pow2_add(bc - 1, shift)',
+            'lemma_mul_le_r(pow2(bc - 1), man, pow2(shift))',
+            'lemma_pow2_le(2 * prec + 2, bc - 1 + shift)',
+            'lemma_pow2_add(prec + 1, prec + 1)',
+        ],
+        ('man = isqrt(man << shift)', 0, 'after'): [
+            'g_y = man',
+            'lemma_sq_mono(g_y + 1, pow2(prec + 1))',
+            'assert g_y >= pow2(prec + 1)',
+            'lemma_bitlen_ge(g_y, prec + 1)',
+        ],
+        ('man, rem = sqrtrem(man << shift)', 0, 'after'): [
+            'g_y = man', 'g_st = rem != 0',
+            'lemma_sq_mono(g_y + 1, pow2(prec + 1))',
+            'assert g_y >= pow2(prec + 1)',
+            'lemma_bitlen_ge(g_y, prec + 1)',
+            'lemma_bitlen_2x1(g_y)',
+        ],
+    }
+    post_hints = SQRT_POST
